@@ -67,11 +67,20 @@ def check_alignment(terms, batched, rows="B", per_term=None):
     n = 0
     for t, v in terms.items():
         p = scalar_of(v, t)
-        b_t, rows_t = (per_term or {}).get(t, (batched, rows))
+        b_t, rows_t, *obs_t = (per_term or {}).get(t, (batched, rows))
+        obs_t = set(obs_t[0]) if obs_t else set()
         for a in param_atoms(p):
             key, deps = a[1], set(a[3])
             if key not in EQ_KEYS:
                 continue
+            # an OBSERVED parameter takes precedence over a generated one of the same key, in the observation term only
+            is_obs = 'observed' in a[2]
+            if is_obs != (key in obs_t):
+                if is_obs:
+                    raise Violation(f"{t}/{key}", f"term {t} is evaluated with the OBSERVED values of parameter {key!r}",
+                                    "the generated (parameter-batch) value or the caller's value")
+                raise Violation(f"{t}/{key}", f"term {t} is evaluated with the generated / caller's value of parameter {key!r}",
+                                "row i of the observed values of that parameter for observation i")
             row_deps = {x for x in deps if x in ("B", "I", "Bb", "S")}
             want = {rows_t} if key in b_t else set()
             if row_deps != want:
@@ -114,6 +123,18 @@ def run(chk):
                 n = check_alignment(terms, pk)
                 return f"{n} parameter occurrences aligned"
             chk.run("C12.R1", SSITE[eq_type], cfg, go_sys, construct=f"alignment[system {eq_type}]")
+        # stationary normalisation with a parameter batch (as many normalisation samples as rows): sample i goes with row i
+        if eq_type == 'statio_PDE':
+            for pk in subsets:
+                cfg = {"loss": eq_type, "batched": list(pk), "terms": ["dyn", "norm"], "norm_samples": "one per row of the batch"}
+
+                def go_norm(pk=pk):
+                    S = SingleLoss(E, 'statio_PDE', 'PINN', d=2, m_u=1, terms=('dyn', 'norm'), eq_keys=EQ_KEYS, norm_rows="B")
+                    total, terms = S.evaluate(param_keys=pk)
+                    n = check_alignment(terms, pk)
+                    return f"{n} parameter occurrences aligned"
+                chk.run("C12.R1", SITE[eq_type] + " (normalisation with a parameter batch)", cfg, go_norm,
+                        construct="alignment of the normalisation term[statio_PDE]")
         # a batch that carries both a parameter batch and observations with observed parameters: every term but the
         # observation term ignores the observed parameters
         for pk in ((), ('nu',)):
@@ -124,7 +145,7 @@ def run(chk):
                     S = SingleLoss(E, eq_type, 'PINN', d=2, m_u=1, terms=names, eq_keys=EQ_KEYS)
                     total, terms = S.evaluate(param_keys=pk, observed_params=op)
                     rows_obs = "B" if pk else "I"
-                    n = check_alignment(terms, pk, rows="B", per_term={'observations': (tuple(set(pk) | set(op)), rows_obs)})
+                    n = check_alignment(terms, pk, rows="B", per_term={'observations': (tuple(set(pk) | set(op)), rows_obs, op)})
                     return f"{n} parameter occurrences aligned"
                 chk.run("C12.R1", SITE[eq_type] + " (parameter batch + observed parameters)", cfg, go_mix,
                         construct=f"alignment with observations[{eq_type}]")
@@ -136,7 +157,7 @@ def run(chk):
             def go_obs(eq_type=eq_type, op=op):
                 S = SingleLoss(E, eq_type, 'PINN', d=2, m_u=1, terms=('obs',), eq_keys=EQ_KEYS)
                 total, terms = S.evaluate(observed_params=op)
-                n = check_alignment({'observations': terms['observations']}, op, rows="I")
+                n = check_alignment({'observations': terms['observations']}, op, rows="I", per_term={'observations': (op, "I", op)})
                 return f"{n} parameter occurrences aligned"
             chk.run("C12.R1", SITE[eq_type] + " (observed parameters)", cfg, go_obs, construct=f"observed alignment[{eq_type}]")
 
